@@ -34,7 +34,11 @@ RULE = ("cases = interception plans (0-8 entries per family built by truncating 
         "cases (nat, nft, tproxy, tproxy+udp): the real set-up of a first plan acts on a stateful table/chain/rule "
         "state (tool exit codes and the -nL listing come from that state), no tear-down runs (the helper was "
         "killed), then the real set-up of a different plan with the same ports/families/owner runs on top and the "
-        "resulting rule state is judged against the SECOND plan. Per plan every cell of the address x port arrangement is decided by the oracle. "
+        "resulting rule state is judged against the SECOND plan. pf-history cases (FreeBSD/OpenBSD/Darwin): a first "
+        "session runs and ends normally against a stateful pf (anchor calls of the main ruleset via the real "
+        "DIOCCHANGERULE buffers, `pfctl -s all` listing, anchor contents), then a second session whose ports are a "
+        "decimal prefix of / equal to / unrelated to the first's is set up and only the anchors the main ruleset "
+        "really calls are judged against its plan. Per plan every cell of the address x port arrangement is decided by the oracle. "
         "A case is non-trivial when the plan has overlapping entries, a port range, an owner restriction or a name "
         "server; distinct = distinct (method, canonical plan)")
 MANIFEST = dict(
@@ -173,22 +177,25 @@ def pkt_field(k):
 # ------------------------------------------------------------------ the real code, recorded
 
 class _FakePopen(object):
-    def __init__(self, rec, argv, **kw):
+    def __init__(self, rec, argv, pfstate=None, **kw):
         self.argv = list(argv)
         self.rec = rec
+        self.pfstate = pfstate
         self.returncode = 0
 
     def communicate(self, stdin=None):
         self.rec.append(('popen', self.argv, stdin))
         if '-E' in self.argv:
             return (b'', b'Token : 4242\n')
+        if self.pfstate is not None and self.argv and self.argv[0] == 'pfctl':
+            return (self.pfstate.pfctl(self.argv, stdin), b'')
         return (b'', b'')
 
     def wait(self):
         return 0
 
 
-def _at_os_boundary(method, body, kernel=None):
+def _at_os_boundary(method, body, kernel=None, pfstate=None):
     """Run body(method_object, rec) with subprocess.call/check_output/Popen (and, for pf, the ioctl and
     pf_get_dev) replaced by recorders; everything is restored afterwards.  Returns body's value.
     With `kernel` (a KernelState) the iptables/ip6tables/nft commands act on that state: their exit status
@@ -208,7 +215,7 @@ def _at_os_boundary(method, body, kernel=None):
         return kernel.listing([str(a) for a in argv]) if kernel is not None else b''
     subprocess.call = _call
     subprocess.check_output = _query
-    subprocess.Popen = lambda argv, **kw: _FakePopen(rec, argv, **kw)
+    subprocess.Popen = lambda argv, **kw: _FakePopen(rec, argv, pfstate, **kw)
     sys.stderr = io.StringIO()
     pfmod = None
     pf_saved = None
@@ -217,7 +224,8 @@ def _at_os_boundary(method, body, kernel=None):
             import sshuttle.methods.pf as pfmod
             pf_saved = (pfmod.pf, pfmod.ioctl, pfmod.pf_get_dev, dict(pfmod._pf_context))
             pfmod.pf = {'pf-freebsd': pfmod.FreeBsd, 'pf-openbsd': pfmod.OpenBsd, 'pf-darwin': pfmod.Darwin}[method]()
-            pfmod.ioctl = lambda *a, **k: 0
+            pfmod.ioctl = (lambda fd, req, buf: pfstate.ioctl(pfmod.pf, req, buf)) if pfstate is not None \
+                else (lambda *a, **k: 0)
             pfmod.pf_get_dev = lambda: 99
             pfmod._pf_context.update(started_by_sshuttle=0, loaded_by_sshuttle=True, Xtoken=[])
             m = get_method('pf')
@@ -260,7 +268,7 @@ def _classify_exc(e):
     return 'exc', tag
 
 
-def run_real_setup(method, c, kernel=None):
+def run_real_setup(method, c, kernel=None, pfstate=None):
     """Call the real setup_firewall once.  Returns ('ok', [argv...]) | ('exc', tag) | ('internalError', tag)."""
     def body(m, rec):
         try:
@@ -269,7 +277,18 @@ def run_real_setup(method, c, kernel=None):
         except Exception as e:  # noqa
             return _classify_exc(e)
         return 'ok', _rule_cmds(rec)
-    return _at_os_boundary(method, body, kernel)
+    return _at_os_boundary(method, body, kernel, pfstate)
+
+
+def run_real_restore(method, c, pfstate):
+    """The real restore_firewall of a session that ends normally."""
+    def body(m, rec):
+        try:
+            m.restore_firewall(c['port'], c['family'], c['udp'], c['user'], c['group'])
+        except Exception as e:  # noqa
+            return _classify_exc(e)
+        return 'ok', []
+    return _at_os_boundary(method, body, None, pfstate)
 
 
 class _HelperStdout(object):
@@ -974,6 +993,167 @@ class KernelState(object):
         return 0
 
 
+class PfState(object):
+    """What pf keeps between sessions (from the manual pages): the anchor calls in the main ruleset
+    (`anchor "NAME"` for filter rules, `rdr-anchor "NAME"` for translation rules; sshuttle adds them through
+    DIOCCHANGERULE and never removes them) and the contents of each anchor (`pfctl -a NAME -f` replaces them,
+    `-a NAME -F all` empties them).  An anchor's rules are evaluated only if the main ruleset calls it."""
+
+    def __init__(self):
+        self.calls = []          # [(kind, name)] in the order they were added
+        self.anchors = {}        # name -> rule lines
+
+    def pfctl(self, argv, stdin):
+        if '-s' in argv and 'all' in argv:
+            out = ['TRANSLATION RULES:']
+            out += ['rdr-anchor "%s" all' % n for k, n in self.calls if k == 'rdr']
+            out += ['', 'FILTER RULES:']
+            out += ['anchor "%s" all' % n for k, n in self.calls if k == 'pass']
+            out += ['', 'INFO:', 'Status: Enabled', '']
+            return '\n'.join(out).encode('ascii')
+        if '-a' in argv:
+            name = argv[argv.index('-a') + 1]
+            if '-f' in argv:
+                lines = (stdin or b'').decode('latin-1').split('\n')
+                self.anchors[name] = [ln for ln in lines if ln]
+            elif '-F' in argv:
+                self.anchors[name] = []
+        return b''
+
+    def ioctl(self, pf, req, buf):
+        import struct
+        if req != pf.DIOCCHANGERULE:
+            return 0
+        raw = bytes(buf.raw) if hasattr(buf, 'raw') else bytes(buf)
+        action = struct.unpack('I', raw[pf.ACTION_OFFSET:pf.ACTION_OFFSET + 4])[0]
+        if action != pf.PF_CHANGE_ADD_TAIL:
+            return 0
+        name = raw[pf.ANCHOR_CALL_OFFSET:pf.ANCHOR_CALL_OFFSET + pf.MAXPATHLEN].split(b'\0')[0].decode('ascii')
+        kind = struct.unpack('I', raw[pf.RULE_ACTION_OFFSET:pf.RULE_ACTION_OFFSET + 4])[0]
+        self.calls.append(('rdr' if kind == pf.PF_RDR else 'pass', name))
+        return 0
+
+    def effective(self, method):
+        """The anchors as `load_pf` input, each reduced to the rules the main ruleset actually reaches."""
+        cmds = []
+        for name, lines in self.anchors.items():
+            keep = []
+            for ln in lines:
+                is_rdr = ln.startswith('rdr ')
+                need = 'rdr' if (is_rdr and method != 'pf-openbsd') else 'pass'
+                if ln.startswith('table ') or (need, name) in self.calls:
+                    keep.append(ln)
+            cmds.append(['pfctl', '-a', name, '-f', '/dev/stdin'] + keep)
+        return cmds
+
+
+PF_METHODS = ['pf-freebsd', 'pf-openbsd', 'pf-darwin']
+
+
+def run_pf_history(method, first, plan):
+    """A first session runs and ends normally (its anchor is flushed, its anchor calls stay in the main
+    ruleset, as the code leaves them); then the second session is set up.  -> ('ok', cmds) | (kind, tag)."""
+    st = PfState()
+    for c in first.calls():
+        res = run_real_setup(method, c, None, st)
+        if res[0] != 'ok':
+            return res
+    for c in first.calls():
+        res = run_real_restore(method, c, st)
+        if res[0] != 'ok':
+            return res
+    for c in plan.calls():
+        res = run_real_setup(method, c, None, st)
+        if res[0] != 'ok':
+            return res
+    return 'ok', st.effective(method)
+
+
+def evaluate_pf_history(method, first, plan, k):
+    kind, val = run_pf_history(method, first, plan)
+    if kind != 'ok':
+        return ('setup failed: %s %s' % (kind, val), spec_verdict(method, plan, k))
+    try:
+        return (verdict_real(method, load_pf(val), plan, k), spec_verdict(method, plan, k))
+    except Unparsable as e:
+        return ('rule rejected: %s' % e, spec_verdict(method, plan, k))
+
+
+def pf_history_case(ctx, method, first, plan, budget):
+    """The second session's rules must take effect whatever anchor calls earlier sessions left behind."""
+    rng = ctx.rng
+    ctx.hist('pf-history:' + method)
+    kind, val = run_pf_history(method, first, plan)
+    base = dict(method=method, via='pf-history', first_plan=first.to_json(), plan=plan.to_json(), packet=None)
+    if kind != 'ok':
+        ctx.violation('C03:pf-history:%s:setup-fails' % method, case=base,
+                      expected='the second session installs its rules', observed='%s %s' % (kind, val))
+        return
+    try:
+        loaded = load_pf(val)
+    except Unparsable as e:
+        ctx.violation('C03:pf-history:%s:rules-not-loadable' % method, case=base,
+                      expected='every emitted rule is accepted by pfctl', observed=str(e))
+        return
+    ks = cells(plan, method, rng, budget)
+    bad = {}
+    for k in ks:
+        got = verdict_real(method, loaded, plan, k)
+        want = spec_verdict(method, plan, k)
+        if got != want:
+            key = _classify('pf-history:' + method, plan, k, got, want)
+            if key not in bad:
+                bad[key] = (k, got, want)
+    ctx.count(len(ks))
+    ctx.hist('cells', len(ks))
+    reported = ctx.__dict__.setdefault('_c03_reported', set())
+    for key in sorted(bad):
+        k, got, want = bad[key]
+        ctx.hist('violating-plans:' + key)
+        if key in reported:
+            continue
+        reported.add(key)
+
+        def still(f, p2):
+            g, w = evaluate_pf_history(method, f, p2, k)
+            return g != w and _classify('pf-history:' + method, p2, k, g, w) == key
+        f, p2 = first, plan
+        changed = True
+        while changed:
+            changed = False
+            for which in (0, 1):
+                cur = (f, p2)[which]
+                for field in ('subnets', 'nslist'):
+                    items = list(getattr(cur, field))
+                    for i in range(len(items)):
+                        trial = Plan.from_json(cur.to_json())
+                        setattr(trial, field, items[:i] + items[i + 1:])
+                        if any(not [x for x in trial.subnets if x[0] == fam] and [x for x in trial.nslist if x[0] == fam]
+                               for fam in (AF_INET, AF_INET6)) or not trial.subnets:
+                            continue
+                        pair = (trial, p2) if which == 0 else (f, trial)
+                        if still(*pair):
+                            f, p2 = pair
+                            changed = True
+                            break
+                    if changed:
+                        break
+                if changed:
+                    break
+        g2, w2 = evaluate_pf_history(method, f, p2, k)
+        ctx.violation(key,
+                      case=dict(method=method, via='pf-history', first_plan=f.to_json(), plan=p2.to_json(),
+                                packet=list(k),
+                                packet_text='%s %s port %d to %s, %s' % (
+                                    'IPv6' if k[0] else 'IPv4', k[3], k[2],
+                                    addr_text(AF_INET6 if k[0] else AF_INET, k[1]),
+                                    'locally generated' if k[4] else 'forwarded')),
+                      expected='%s (property evaluated on the second session\'s plan)' % w2,
+                      observed='%s (pf state after a first session on ports %d/%d that ended normally, then the real '
+                               'set-up of the second session on ports %d/%d; only anchors the main ruleset calls are '
+                               'evaluated)' % (g2, f.port6, f.port4, p2.port6, p2.port4))
+
+
 STALE_METHODS = ['nat', 'nft', 'tproxy', 'tproxy-udp']
 
 
@@ -1460,6 +1640,22 @@ def gen_and_run(ctx):
                 plan = second_plan(rng, method, first)
             stale_session_case(ctx, method, first, plan, 250)
             ctx.mark(('stale', method, repr(first.to_json()), repr(plan.to_json())), True)
+    # 2d. pf: a session after earlier sessions left their anchor calls in the main ruleset; the new ports are
+    #     decimal prefixes of / equal to / unrelated to the old ones
+    for i in range(ctx.scale(9, 240)):
+        for method in PF_METHODS:
+            plan = nested_plan(rng, method) if i % 2 else rand_plan(rng, method)
+            first = rand_plan(rng, method)
+            small = rng.sample(range(1024, 6553), 4)
+            plan.port6, plan.port4, plan.dns6, plan.dns4 = small
+            rel = ('prefix', 'same', 'unrelated')[i % 3]
+            if rel == 'prefix':
+                first.port6, first.port4 = small[0] * 10 + rng.randrange(10), small[1] * 10 + rng.randrange(10)
+            elif rel == 'same':
+                first.port6, first.port4 = small[0], small[1]
+            ctx.hist('pf-history-ports:' + rel)
+            pf_history_case(ctx, method, first, plan, 200)
+            ctx.mark(('pf-history', method, rel, repr(first.to_json()), repr(plan.to_json())), True)
     # 3. generated plans
     nplans = ctx.scale(150, 2500)
     for i in range(nplans):
@@ -1580,6 +1776,15 @@ def replay(ctx, rep):
     method = case['method']
     via = case.get('via', 'direct')
     plan = Plan.from_json(case['plan'])
+    if via == 'pf-history':
+        first = Plan.from_json(case['first_plan'])
+        if case.get('packet') is None:
+            kind, val = run_pf_history(method, first, plan)
+            return kind != 'ok', 'second pf session: %s %s' % (kind, val if kind != 'ok' else 'rules installed')
+        k = tuple(case['packet'])
+        got, want = evaluate_pf_history(method, first, plan, k)
+        return got != want, 'packet %s (%s), pf session after an earlier session on ports %d/%d: effective rules ' \
+            '-> %s, property -> %s' % (pkt_field(k), case.get('packet_text', ''), first.port6, first.port4, got, want)
     if via == 'stale-session':
         first = Plan.from_json(case['first_plan'])
         if case.get('packet') is None:
